@@ -56,7 +56,7 @@ func evalC18Prom(c *Ctx, cs EnumCase) EnumResult {
 		vs = append(vs, explore.Violation{Sig: "C18:" + sig, Msg: k.name() + ": " + msg})
 	}
 	var engErr, obs string
-	rt := vrt.Run(vrt.Options{MaxPoints: 400_000_000}, func() {
+	rt := vrt.Run(vrt.Options{MaxPoints: 400_000_000, HB: true}, func() {
 		cl, err := StartLeaderFollowers(1, nil)
 		if err != nil {
 			engErr = err.Error()
@@ -160,6 +160,9 @@ func evalC18Prom(c *Ctx, cs EnumCase) EnumResult {
 	}
 	if rt.Crash != nil {
 		add("crash", rt.Crash.Value+"\n"+firstLines(rt.Crash.Stack, 14))
+	}
+	if mr := rt.MapRaceReport(); mr != "" {
+		add("crash/concurrent-map-access", "two threads access a map without an ordering between them (the Go runtime kills the process when they meet): "+mr)
 	}
 	if rt.Deadlock != "" {
 		add("deadlock", rt.Deadlock)
